@@ -6,7 +6,6 @@ import (
 	"fmt"
 	"io"
 	"log/slog"
-	"maps"
 	"reservoir/config"
 	"reservoir/metrics"
 	"reservoir/utils/atomics"
@@ -75,12 +74,18 @@ func NewMemoryCache[MetadataT any](cfg *config.Config, memoryBudgetPercent int, 
 
 	c.janitor = newCacheJanitor(cfg, cleanupInterval, cacheFunctions[MetadataT]{
 		cacheIterator: func(yield func(key CacheKey, metadata *EntryMetadata[MetadataT]) bool) {
+			// The janitor works on copies of the metadata, taken under the map lock: the stored metadata
+			// keeps being updated (LastAccess, Expires) by requests, which hold the map lock while they do.
 			c.mu.RLock()
-			snapshot := maps.Clone(c.entries)
+			snapshot := make(map[CacheKey]*EntryMetadata[MetadataT], len(c.entries))
+			for key, entry := range c.entries {
+				metaCopy := *entry.meta
+				snapshot[key] = &metaCopy
+			}
 			c.mu.RUnlock()
 
-			for key, entry := range snapshot {
-				if !yield(key, entry.meta) {
+			for key, meta := range snapshot {
+				if !yield(key, meta) {
 					break
 				}
 			}
@@ -116,6 +121,14 @@ func (c *MemoryCache[MetadataT]) Destroy() {
 	c.subs.UnsubscribeAll()
 }
 
+// Records an access. Stored metadata is written with the map lock held (in addition to the key's lock),
+// because the janitor reads the metadata of all entries under the map lock, without the key locks.
+func (c *MemoryCache[MetadataT]) touch(meta *EntryMetadata[MetadataT]) {
+	c.mu.Lock()
+	meta.LastAccess = time.Now()
+	c.mu.Unlock()
+}
+
 func (c *MemoryCache[MetadataT]) Get(key CacheKey) (*Entry[MetadataT], error) {
 	lock := getLock(c.locks, key)
 	lock.Lock() // Using full lock to update LastAccess safely
@@ -135,7 +148,7 @@ func (c *MemoryCache[MetadataT]) Get(key CacheKey) (*Entry[MetadataT], error) {
 		stale = true
 	}
 
-	entry.meta.LastAccess = time.Now()
+	c.touch(entry.meta)
 	metrics.Global.Cache.CacheHits.Increment()
 
 	// Hand out a copy taken under the key lock: the caller reads it after the lock is released,
@@ -256,8 +269,10 @@ func (c *MemoryCache[MetadataT]) UpdateMetadata(key CacheKey, modifier func(*Ent
 		return ErrCacheEntryNotFound
 	}
 
+	c.mu.Lock() // see touch
 	modifier(entry.meta)
 	entry.meta.LastAccess = time.Now()
+	c.mu.Unlock()
 
 	metrics.Global.Cache.CacheHits.Increment()
 	return nil
@@ -282,7 +297,7 @@ func (c *MemoryCache[MetadataT]) GetMetadata(key CacheKey) (meta *EntryMetadata[
 		stale = true
 	}
 
-	entry.meta.LastAccess = time.Now()
+	c.touch(entry.meta)
 	metrics.Global.Cache.CacheHits.Increment()
 
 	metaCopy := *entry.meta // the caller gets its own copy, see Get
